@@ -633,3 +633,74 @@ func (c *Ctx) responseCodeRange() (lo, hi int64, ok bool) {
 	}
 	return lo, hi, gotLo && gotHi
 }
+
+// RuleES1: an escape state is blind to the byte it consumes. A state that is entered only
+// over a backslash (every arm of the machine whose last `step =` names it is taken on '\\'
+// alone) exists to take the next byte literally: all its accepting arms have the same
+// effects, whatever the byte. An escape state that looks at the escaped byte - "a second
+// backslash starts a new escape" - pairs the backslashes of `\\/` the wrong way round and
+// carries the body past its closing delimiter, beyond what the library delimits.
+func RuleES1(c *Ctx) {
+	m, _, sc, ok := scannerBase(c, "ES1", "every state entered only over a backslash treats all bytes it accepts alike (same effects, same next step)", 2)
+	if !ok {
+		return
+	}
+	bs := scanpds.Of('\\')
+	enteredOn := map[int][]scanpds.ByteSet{}
+	for _, st := range m.States {
+		for _, p := range st.Paths {
+			last := -1
+			for _, e := range p.Effects {
+				if e.Kind == scanpds.EGoto {
+					last = e.Fn
+				}
+			}
+			if last >= 0 && last != st.ID {
+				enteredOn[last] = append(enteredOn[last], p.Set)
+			}
+		}
+	}
+	sig := func(p scanpds.Path) string {
+		var parts []string
+		for _, e := range p.Effects {
+			parts = append(parts, fmt.Sprintf("%d/%d/%s/%d", e.Kind, e.Fn, e.Ev, e.Off))
+		}
+		return fmt.Sprintf("%s->%d", strings.Join(parts, ";"), p.Out)
+	}
+	for _, st := range m.States {
+		sets := enteredOn[st.ID]
+		if len(sets) == 0 {
+			continue
+		}
+		only := true
+		for _, s := range sets {
+			if s != bs {
+				only = false
+			}
+		}
+		if !only {
+			continue
+		}
+		sigs := map[string][]string{}
+		for _, p := range st.Paths {
+			if p.Out == scanpds.OutErr {
+				continue
+			}
+			sigs[sig(p)] = append(sigs[sig(p)], m.Describe(st, p))
+		}
+		switch {
+		case len(sigs) == 0:
+			sc.Violation(st.Name, c.P.Pos(st.Decl.Pos()), "the escape state accepts no byte")
+		case len(sigs) == 1:
+			sc.Holds(st.Name, c.P.Pos(st.Decl.Pos()), "entered over a backslash only; every accepted byte is consumed the same way")
+		default:
+			var all []string
+			for _, d := range sigs {
+				all = append(all, d[0])
+			}
+			sort.Strings(all)
+			sc.Violation(st.Name, c.P.Pos(st.Decl.Pos()), "the escape state treats the escaped byte differently by its value: "+strings.Join(all, " | ")+" - an escaped backslash before the closing delimiter (`\\\\/`) is read as the start of another escape, and the body runs past the end the library computes")
+		}
+	}
+	sc.End()
+}
